@@ -124,6 +124,18 @@ Chain ::= SEQUENCE {
   head @0 Coord,
   tail @1 Chain OPTIONAL
 }
+Oid ::= OBJECT IDENTIFIER
+Num ::= REAL
+Txt ::= UTF8String (SIZE (0..40))
+Misc ::= SEQUENCE {
+  o @0 Oid,
+  o2 @1 Oid OPTIONAL,
+  r @2 Num OPTIONAL,
+  t @3 Txt DEFAULT "x",
+  n @4 NULL OPTIONAL,
+  big @5 INTEGER,
+  os @6 OCTET STRING OPTIONAL
+}
 END
 '''
 
@@ -163,6 +175,13 @@ FIXED_VALID = {
     'Expr': [('lit', -128), ('neg', ('neg', ('lit', 5))),
              ('add', {'l': ('lit', 1), 'r': ('add', {'l': ('neg', ('lit', 2)), 'r': ('lit', 3)})})],
     'Chain': [{'head': C1}, {'head': C1, 'tail': {'head': C2, 'tail': {'head': C3}}}],
+    # primitive kinds whose codecs share helper functions across types and codecs (OID sub-identifiers, REAL, UTF-8)
+    'Oid': ['2.999.1', '2.999.1.5', '1.2.840.113549', '2.999.1', '0.39.16384.3', '1.3.1079.2'],
+    'Num': [0.5, -1.0e10, 0.0, 1.0e-7],
+    'Txt': ['', 'h\u00e9llo \u20ac', 'x'],
+    'Misc': [{'o': '2.999.1', 'big': 0},
+             {'o': '1.3.1079.7', 'o2': '2.999.1.9', 'r': 2.5, 't': 'gr\u00fc\u00df', 'n': None, 'big': -(2 ** 70), 'os': b'\x00' * 200},
+             {'o': '2.999.1', 'o2': '2.999.1', 'big': 2 ** 64, 'os': b''}],
 }
 
 # invalid values: wrong Python type, constraint violations, unknown choice / enumeration item,
@@ -185,6 +204,8 @@ FIXED_INVALID = {
              {'v': 1, 'kids': 7}],
     'Expr': [('neg', ('neg', ('nope', 5))), ('add', {'l': ('lit', 1)}), ('lit', 1000), ('neg', None)],
     'Chain': [{'head': C1, 'tail': {'tail': {'head': C1}}}, {'head': C1, 'tail': {'head': {'x': 'x'}}}],
+    'Oid': [5, '1'],
+    'Misc': [{'o': '2.999.1'}, {'o': 7, 'big': 1}, {'o': '2.999.1', 'big': 1, 't': 'y' * 41}],
 }
 
 
